@@ -1328,3 +1328,78 @@ def run_mode_map(res, ast, rule):
         # no execute_unsafe override
         fs = [f for f in ast.find_fns(path, "execute_unsafe") if "impl Executable" in f["container"]]
         res.check(not fs, rule, f"{path}|{ty}::execute_unsafe|default", path, f"{ty} overrides execute_unsafe: unchecked mode must fall back to execute")
+
+
+def run_thread_seq(res, ast, rule="THREAD-SEQ"):
+    """bcint::build_threaded_code evaluated (lib/receval.py, emitters scripted) on a small bytecode program: without `limited` the threaded code is one op per
+    bytecode instruction, in order, followed by the return, and it is the same stream for safe = true and safe = false (the mode only selects the
+    variant of each op); every branch is adjusted exactly once, to the start of its target instruction."""
+    import receval, itereval
+    from receval import Rec
+    from rusteval import Env as _Env, ReturnEx as _Ret, Unanalysable as _Un, Reached as _Re, UNIT as _UNIT
+    res.rule(rule, "bcint::build_threaded_code: without `limited`, one op per bytecode instruction in program order plus the return, identical for safe = true and "
+             "safe = false (the flag is only handed to the emitter); every branch adjusted once to the first op of its target", floor=2, what="modes")
+    res.files.add(BCMOD)
+    try:
+        f = ast.fn(BCMOD, "build_threaded_code", contains="BcInterpreter")
+    except Missing as m:
+        res.missing(rule, m)
+        return
+    I = lambda n, *a_: itereval.Ctor("Instr::" + n, list(a_))
+    ps_ = [p_["pat"]["name"] for p_ in f["node"]["sig"]["inputs"] if p_["t"] == "Arg" and p_["pat"]["t"] == "PIdent"]
+    # an `if` whose body ends in a pointer move followed by the loop's backward branch, which is also the target of the if's forward branch
+    prog = [I("Inp", 0), I("BrZ", 0, 5), I("Out", 0), I("BrZ", 1, 2), I("Mov", 2), I("BrNZ", 0, -3), I("Scan", 1, 2), I("Out", 0)]
+    w = where(BCMOD, f["node"], "build_threaded_code")
+    streams = {}
+    for safe in (True, False):
+        probs = []
+        try:
+            adj = []
+
+            def emit(it, insts, ins, sf):
+                insts.append(("op", ins, sf))
+                return _UNIT
+
+            def emit_limit(it, insts, cost):
+                insts.append(("limit", cost))
+                return _UNIT
+
+            def emit_return(it, insts):
+                insts.append(("return",))
+                return _UNIT
+
+            def adjust(it, sl, off):
+                adj.append((sl[0] if sl else None, off))
+                return _UNIT
+            me = Rec(bytecode=Rec(insts=list(prog), temps=2, min_accessed=0, max_accessed=1))
+            it = receval.RecInterp(ast, BCMOD, me, scripted={"emit": emit, "emit_limit": emit_limit, "emit_return": emit_return, "adjust_branch": adjust})
+            env_ = _Env()
+            if len(ps_) != 2:
+                raise _Un("build_threaded_code(&self, limited, safe): unexpected parameters")
+            env_.bind(ps_[0], False)
+            env_.bind(ps_[1], safe)
+            try:
+                code = it.exec_block(f["node"]["body"], env_)
+            except _Ret as r_:
+                code = r_.value
+            if not isinstance(code, list):
+                raise _Un("no code vector is returned")
+            ops = [x_ for x_ in code if x_[0] == "op"]
+            if [x_[1] for x_ in ops] != prog or any(x_[1] is not y_ for x_, y_ in zip(ops, prog)):
+                probs.append(f"the threaded code holds {[repr(x_[1]) for x_ in ops]}, the bytecode is {[repr(x_) for x_ in prog]}")
+            elif code[-1] != ("return",) or len(code) != len(prog) + 1:
+                probs.append(f"besides one op per instruction and the final return the stream holds {[x_ for x_ in code if x_[0] != 'op'][:-1]}")
+            elif any(x_[2] is not safe for x_ in ops):
+                probs.append("the emitter is not given the mode flag of this run")
+            else:
+                pos = {id(x_): i_ for i_, x_ in enumerate(code)}
+                for i_, ins in enumerate(prog):
+                    if ins.name.endswith(("::BrZ", "::BrNZ")):
+                        hits = [off for first, off in adj if first is code[i_]]
+                        if len(hits) != 1 or i_ + hits[0] != i_ + ins.fields[1]:
+                            probs.append(f"branch {i_} ({ins!r}) is adjusted by {hits}, its target is instruction {i_ + ins.fields[1]}")
+            streams[safe] = [(x_[0], x_[1]) if x_[0] == "op" else x_ for x_ in code]
+        except (_Un, _Re, KeyError, TypeError, IndexError, AttributeError) as u_:
+            probs.append(f"cannot be analysed (fail closed): {u_}")
+        res.evaluations += 1
+        res.check(not probs, rule, f"{BCMOD}|build_threaded_code|unlimited|safe={str(safe).lower()}", w, f"safe = {str(safe).lower()}: " + "; ".join(probs[:2]))
